@@ -26,6 +26,7 @@ import (
 	"github.com/NethermindEth/juno/consensus/walstore"
 	"github.com/NethermindEth/juno/core/felt"
 	kvdb "github.com/NethermindEth/juno/db"
+	"github.com/cockroachdb/pebble/v2/vfs"
 	pebblewal "github.com/cockroachdb/pebble/v2/wal"
 	"verifharness/hx"
 )
@@ -103,6 +104,14 @@ type faults struct {
 type faultWriter struct {
 	pebblewal.Writer
 	f *faults
+	o *observer
+}
+
+func (w *faultWriter) Close() (int64, error) {
+	w.o.snap("close-pre", 0)
+	off, err := w.Writer.Close()
+	w.o.snap("close-post", 0)
+	return off, err
 }
 
 var errInjected = errors.New("injected writer failure")
@@ -131,16 +140,82 @@ func (w *faultWriter) WriteRecord(p []byte, opts pebblewal.SyncOptions, rc pebbl
 	return w.Writer.WriteRecord(p, opts, rc)
 }
 
-func openStoreF(root string) (Store, *faults, error) {
+// ---------- observing the REAL order of the store's file operations ----------
+// Every writer Close (rotation / close / abort), the hand-over of the obsolete list and every removal
+// the store issues goes through the verif seams; at each of these moments the log directory is
+// copied: every copy is a crash image that really existed, in the order the code produced them.
+type fsEvent struct {
+	name string   // close-pre close-post obsolete rm-pre rm-post
+	num  uint64   // file number for rm-*
+	dir  string   // image root holding the copy
+	gone []uint64 // files whose removal had returned when the copy was taken
+}
+
+type observer struct {
+	root    string
+	newRoot func() string
+	on      bool
+	events  []fsEvent
+	gone    []uint64
+	listed  []uint64 // the obsolete list of the last cleanup
+}
+
+func (o *observer) snap(name string, num uint64) {
+	if o == nil || !o.on {
+		return
+	}
+	img := o.newRoot()
+	copyDir(walDir(o.root), walDir(img))
+	o.events = append(o.events, fsEvent{name: name, num: num, dir: img, gone: append([]uint64{}, o.gone...)})
+}
+
+func (o *observer) take() []fsEvent {
+	ev := o.events
+	o.events, o.gone, o.on = nil, nil, false
+	return ev
+}
+
+type obsFS struct {
+	vfs.FS
+	o *observer
+}
+
+func (f obsFS) Remove(name string) error {
+	n, _ := strconv.ParseUint(strings.TrimSuffix(filepath.Base(name), ".log"), 10, 64)
+	f.o.snap("rm-pre", n)
+	err := f.FS.Remove(name)
+	if err == nil {
+		f.o.gone = append(f.o.gone, n)
+	}
+	f.o.snap("rm-post", n)
+	return err
+}
+
+func (o *observer) wrapObsolete(logs []pebblewal.DeletableLog) []pebblewal.DeletableLog {
+	o.gone, o.listed = nil, nil
+	for i := range logs {
+		o.listed = append(o.listed, uint64(logs[i].NumWAL))
+		logs[i].FS = obsFS{FS: logs[i].FS, o: o}
+	}
+	o.snap("obsolete", 0)
+	return logs
+}
+
+func openStoreF(root string, newRoot func() string) (Store, *faults, *observer, error) {
 	st, err := openStore(root)
 	if err != nil {
-		return nil, nil, err
+		return nil, nil, nil, err
 	}
 	f := &faults{}
-	if !walstore.VerifInterposeWriter(st, func(w pebblewal.Writer) pebblewal.Writer { return &faultWriter{Writer: w, f: f} }) {
+	o := &observer{root: root, newRoot: newRoot}
+	ok := walstore.VerifInterpose(st, walstore.VerifSeams{
+		WrapWriter:   func(w pebblewal.Writer) pebblewal.Writer { return &faultWriter{Writer: w, f: f, o: o} },
+		WrapObsolete: o.wrapObsolete,
+	})
+	if !ok {
 		hx.Fatalf("verif seam: store is not the walstore implementation")
 	}
-	return st, f, nil
+	return st, f, o, nil
 }
 
 func walDir(root string) string { return walstore.DefaultWALDir(root) }
@@ -326,6 +401,7 @@ type world struct {
 	root   string // current store root (root/consensus-wal is the log directory)
 	st     Store  // nil when dead / closed
 	flt    *faults
+	obs    *observer
 	ops    []Op
 	rets   []string // real outcome per op: ok | err | crash
 	scen   string
@@ -610,11 +686,11 @@ func (w *world) exec(o Op) {
 			w.root = img
 			w.st = nil
 		}
-		st, flt, err := openStoreF(w.root)
+		st, flt, obs, err := openStoreF(w.root, w.newImgRoot)
 		if err != nil {
 			ret = "err"
 		} else {
-			w.st, w.flt = st, flt
+			w.st, w.flt, w.obs = st, flt, obs
 		}
 	default:
 		hx.Fatalf("exec: op %s", o.K)
@@ -907,6 +983,86 @@ func subsets(del []uint64, rng *hx.RNG, max int) [][]uint64 {
 	return res
 }
 
+// realOrder: the directory copies taken at every file operation of a cleanup are crash images that really
+// existed. Each is reopened with the real store (predicate + model), the removal subsets are built from the
+// directory as it was when the removals began (not from the final state), and the observed operation order is
+// compared with the model's sub-step sequence: watermark tmp + rename, rotation, removals in ascending order.
+func (w *world) realOrder(prefix []Op, s *flushShot, events []fsEvent, listed []uint64) bool {
+	hasObs := false
+	for _, e := range events {
+		if e.name == "obsolete" {
+			hasObs = true
+		}
+	}
+	if !hasObs {
+		for _, e := range events {
+			os.RemoveAll(e.dir)
+		}
+		return false
+	}
+	w.c.Hist["real-order:cleanup-observed"]++
+	with := func(o Op) []Op { return append(append([]Op{}, prefix...), o) }
+	// 1. order of operations and the watermark at each of them
+	var names, want []string
+	for _, e := range events {
+		n := e.name
+		if strings.HasPrefix(n, "rm-") {
+			n += ":" + strconv.FormatUint(e.num, 10)
+		}
+		names = append(names, n)
+	}
+	want = append(want, "close-pre", "close-post", "obsolete")
+	for _, n := range listed {
+		want = append(want, fmt.Sprintf("rm-pre:%d", n), fmt.Sprintf("rm-post:%d", n))
+	}
+	a := w.ask(w.ops, "?")
+	wmWant := field(a.disk, "wm")
+	bad := ""
+	if strings.Join(names, " ") != strings.Join(want, " ") {
+		bad = "the sequence of writer-close / obsolete / remove operations differs from rotation, then removals in ascending order"
+	}
+	for _, e := range events {
+		d := walDir(e.dir)
+		_, tmpErr := os.Stat(filepath.Join(d, "prune-watermark.tmp"))
+		if got := wmString(readWM(d)); bad == "" && (got != wmWant || tmpErr == nil) {
+			bad = fmt.Sprintf("at %s the prune-watermark file holds %s (tmp present: %v); the model's sequence has it renamed to %s before the rotation and before any removal", e.name, got, tmpErr == nil, wmWant)
+		}
+	}
+	if bad != "" {
+		w.c.Violation("cleanup-order", fmt.Sprintf("%s; observed [%s] in the flush after [%s]", bad, strings.Join(names, " "), short(opsLine(prefix))), w.ops, true)
+	}
+	// 2. every observed directory is a crash image of the model's corresponding sub-step
+	obsCopy := ""
+	for _, e := range events {
+		var op Op
+		switch e.name {
+		case "close-pre":
+			op = Op{K: "fc", C: "ren"}
+		case "close-post", "obsolete":
+			op = Op{K: "fc", C: "rot"}
+		default:
+			op = Op{K: "fd", Gone: e.gone}
+		}
+		if e.name == "obsolete" {
+			obsCopy = w.newImgRoot()
+			copyDir(walDir(e.dir), walDir(obsCopy))
+		}
+		w.checkImage(with(op), e.dir, "real:"+e.name, w.rng.Chance(30), nil)
+	}
+	// 3. the removals are not ordered by a directory sync: any subset of the listed files may be gone,
+	//    starting from the directory as it really was when the removals began
+	for _, g := range subsets(listed, w.rng, 24) {
+		img := w.newImgRoot()
+		copyDir(walDir(obsCopy), walDir(img))
+		for _, n := range g {
+			os.Remove(filepath.Join(walDir(img), logName(n)))
+		}
+		w.checkImage(with(Op{K: "fd", Gone: g}), img, fmt.Sprintf("realfd:%dof%d", len(g), len(listed)), w.rng.Chance(30), nil)
+	}
+	os.RemoveAll(obsCopy)
+	return true
+}
+
 // flushWithImages performs a real Flush and checks every crash image of it (quick: boundaries +-2 and
 // random cuts; thorough: every byte). Returns the shot so that the caller may adopt one image.
 func (w *world) flushWithImages(dense bool) {
@@ -915,7 +1071,15 @@ func (w *world) flushWithImages(dense bool) {
 		return
 	}
 	prefix := append([]Op{}, w.ops...)
+	if w.obs != nil {
+		w.obs.on = true
+	}
 	s := w.shoot(false)
+	var events []fsEvent
+	var listed []uint64
+	if w.obs != nil {
+		events, listed = w.obs.take(), w.obs.listed
+	}
 	ret := "ok"
 	if s.err != nil {
 		ret = "err"
@@ -924,6 +1088,7 @@ func (w *world) flushWithImages(dense bool) {
 	w.rets = append(w.rets, ret)
 	w.c.Hist["op:f"]++
 	defer os.RemoveAll(s.baseDir)
+	realRemovals := w.realOrder(prefix, s, events, listed)
 	recLen := s.recEnd - s.sizeA
 	if s.target == 0 || recLen <= 0 {
 		return
@@ -969,8 +1134,10 @@ func (w *world) flushWithImages(dense bool) {
 			crashes = append(crashes, Op{K: "fc", C: "rottorn", Cut: i})
 		}
 		crashes = append(crashes, Op{K: "fc", C: "rot"})
-		for _, g := range subsets(s.deleted, w.rng, 24) {
-			crashes = append(crashes, Op{K: "fd", Gone: g})
+		if !realRemovals { // otherwise the removal images were built from the observed directory
+			for _, g := range subsets(s.deleted, w.rng, 24) {
+				crashes = append(crashes, Op{K: "fd", Gone: g})
+			}
 		}
 		w.c.Hist["cleanup-flush-imaged"]++
 		w.c.Hist[fmt.Sprintf("cleanup-deleted-files:%d", min(len(s.deleted), 5))]++
